@@ -38,6 +38,10 @@ type RCCase struct {
 
 // far-away crontabs: never fire by themselves during a case
 var crontabs = []string{"0 0 1 1 *", "0 0 2 1 *", "30 4 1 2 *", "*/5 0 3 3 *", "0 12 4 4 1"}
+
+// spelled: the pool for hooks and ticks also holds other spellings of the same schedules (doubled, leading and
+// trailing blanks): a crontab is identified by its string, every spelling is a crontab of its own
+var spelled = []string{"0 0 1 1 *", "0 0 2 1 *", "30 4 1 2 *", "0  0 1 1 *", " 0 0 2 1 *", "0 0 1 1 * ", "*/5 0 3 3 *"}
 var ids = []string{"i1", "i2", "i3", "i4", "i5", "i6"}
 
 func genRC(t *rapid.T) RCCase {
@@ -46,7 +50,7 @@ func genRC(t *rapid.T) RCCase {
 	for i := 0; i < n; i++ {
 		c.Ops = append(c.Ops, RCOp{
 			K:       rapid.SampledFrom([]string{"add", "remove"}).Draw(t, "k"),
-			Crontab: rapid.SampledFrom(crontabs[:3]).Draw(t, "crontab"),
+			Crontab: rapid.SampledFrom(append(append([]string{}, crontabs[:3]...), spelled[3:5]...)).Draw(t, "crontab"),
 			ID:      rapid.SampledFrom(ids[:3]).Draw(t, "id"),
 		})
 	}
@@ -98,7 +102,7 @@ func runRC(c RCCase) (ev.Info, error) {
 	return info, nil
 }
 
-const ruleRC = "histories of 1-30 Add/Remove of (crontab,id) pairs over 3 crontabs and 4 ids (repeats, removal of unknown pairs, re-adds) on the real schedule manager, with the embedded cron running or not; after every step every registered cron entry is fired once through a tag-guarded accessor and the ticks must be exactly one per crontab that has a registered id. Non-trivial: a crontab shared by >= 2 ids was later fully removed."
+const ruleRC = "histories of 1-30 Add/Remove of (crontab,id) pairs over 5 crontab strings (two of them re-spellings with extra blanks) and 3 ids (repeats, removal of unknown pairs, re-adds) on the real schedule manager, with the embedded cron running or not; after every step every registered cron entry is fired once through a tag-guarded accessor and the ticks must be exactly one per crontab that has a registered id. Non-trivial: a crontab shared by >= 2 ids was later fully removed."
 
 func TestRefCount(t *testing.T) {
 	ev.Main(t, ev.Spec[RCCase]{Property: "C11", Part: "refcount", Rule: ruleRC, Gen: genRC, Run: runRC})
@@ -135,7 +139,7 @@ func genTick(t *rapid.T) TickCase {
 		}
 		ns := rapid.IntRange(1, 4).Draw(t, "ns")
 		for s := 0; s < ns; s++ {
-			sc := hcfg.Sched{Crontab: rapid.SampledFrom(crontabs[:3]).Draw(t, "crontab")}
+			sc := hcfg.Sched{Crontab: rapid.SampledFrom(spelled[:6]).Draw(t, "crontab")}
 			if rapid.IntRange(0, 4).Draw(t, "named") > 0 {
 				sc.Name = fmt.Sprintf("s%d", s)
 			}
@@ -158,7 +162,7 @@ func genTick(t *rapid.T) TickCase {
 		k := rapid.SampledFrom([]string{"enable", "enable", "disable", "tick", "tick", "tick"}).Draw(t, "k")
 		st := TickStep{K: k}
 		if k == "tick" {
-			st.Crontab = rapid.SampledFrom(crontabs[:4]).Draw(t, "tc")
+			st.Crontab = rapid.SampledFrom(spelled).Draw(t, "tc")
 		} else {
 			st.Hook = rapid.IntRange(0, nh-1).Draw(t, "h")
 		}
@@ -305,7 +309,7 @@ func runTick(c TickCase) (ev.Info, error) {
 	return info, nil
 }
 
-const ruleTick = "1-4 generated hooks (real --config through the scripted hook, real hook manager and events handler assembled by VerifAssemble) with 1-4 schedule bindings each over 3 crontabs, queues {main,q1,q2}, groups, allowFailure, includes of 0-2 kubernetes bindings; steps enable/disable a hook's schedule bindings or inject a tick into the schedule channel; after each tick the tasks appended to the queues must be exactly one per enabled binding with that crontab, in that binding's queue, with its name, group, allowFailure and include set. Non-trivial: a tick matched >= 2 enabled bindings."
+const ruleTick = "1-4 generated hooks (real --config through the scripted hook, real hook manager and events handler assembled by VerifAssemble) with 1-4 schedule bindings each over 6 crontab strings (three schedules, three of them also spelled with doubled, leading or trailing blanks: a crontab is identified by its string), queues {main,q1,q2}, groups, allowFailure, includes of 0-2 kubernetes bindings; steps enable/disable a hook's schedule bindings or inject a tick into the schedule channel; after each tick the tasks appended to the queues must be exactly one per enabled binding with that crontab, in that binding's queue, with its name, group, allowFailure and include set. Non-trivial: a tick matched >= 2 enabled bindings."
 
 func TestTicks(t *testing.T) {
 	_ = os.Getenv
